@@ -1,12 +1,1463 @@
-//! stub: property C14 has no correspondence harness yet
+//! C14 — WebSocket handshake and frame codec. Public API only:
+//! `actix_http::ws::{Parser, Codec, Frame, Message, Item, handshake, hash_key, CloseCode, …}`.
+//!
+//! Case grammar (same as `lean/ActixModel/Drv/C14.lean`):
+//!   stream role=<s|c> max=<n> al=<0..3> <seg>|<seg>|…     Codec::decode loop, one feed per segment
+//!   parse  role=<s|c> max=<n> al=<0..3> <bytes>           one Parser::parse call
+//!   enc    role=<s|c> max=<n> al=<0..3> k=<8 hex> <msg> … Codec::encode at `role`, decode at the peer
+//!   hs     m=<METHOD> <name>=<bytes> …                    ws::handshake
+//!   key    <bytes>                                        ws::hash_key
+//!   closecodes                                            u16 → CloseCode → u16
+//! <bytes> = `-` | chunk(+chunk)*, chunk = hex | R<len>.<seed> | A<len>.<seed>
+//!
+//! The oracle is a reference decoder written from RFC 6455 §5 and the property's wording (it
+//! shares nothing with the Lean model), an independent SHA-1/Base64, and the metamorphic relation
+//! "same bytes, one read ⇒ same frames".
+use actix_http::{
+    header::{HeaderName, HeaderValue},
+    ws::{self, Codec, Frame, Item, Message, Parser, ProtocolError},
+    Method, RequestHead,
+};
+use bytes::{Buf, Bytes, BytesMut};
+use tokio_util::codec::{Decoder, Encoder};
+
 use super::Prop;
-use crate::common::CaseResult;
+use crate::common::{hex, hex0, kv, unhex, CaseResult, Ctx, Rng, Tier};
+
+const RULE: &str = "cases: (stream) frame sequences from a generator-side encoder — all opcodes, payload lengths around \
+0/125/126/127/65535/65536 and around max_size, explicit masks, both roles, buffers at all four alignments — fed to \
+Codec::decode under every 2-cut, 1-byte feeds and random cuts, plus illegal sequences from a grammar (wrong masking, \
+reserved opcodes, fragmented/over-long control frames, continuation without start, start inside a fragmented message, \
+announced length > max_size with the payload withheld, 64-bit length overflow); (parse) all first bytes x selected second \
+bytes x both roles, length fields at their boundaries, truncation at every header position, mask alignment x length 0..40; \
+(enc) message sequences encoded by Codec at one role and decoded at the other, lengths at every encoding boundary; \
+(hs) the product of method / Upgrade / Connection / Version / Key variants; (key) random key strings of every length \
+0..130. A case is non-trivial if at least one frame was delivered, a handshake was accepted, or a key was hashed; \
+distinct = distinct (case, output) hashes";
+
+// ------------------------------------------------------------------------------------------
+// byte notation
+// ------------------------------------------------------------------------------------------
+
+fn pat_bytes(len: usize, seed: usize) -> Vec<u8> {
+    (0..len).map(|i| ((seed + 31 * i + 7 * (i / 251)) % 256) as u8).collect()
+}
+
+fn ascii_bytes(len: usize, seed: usize) -> Vec<u8> {
+    (0..len).map(|i| (32 + (seed + 7 * i) % 95) as u8).collect()
+}
+
+fn parse_chunk(s: &str) -> Option<Vec<u8>> {
+    if let Some(r) = s.strip_prefix('R').or_else(|| s.strip_prefix('A')) {
+        let (l, sd) = r.split_once('.')?;
+        let (l, sd) = (l.parse().ok()?, sd.parse().ok()?);
+        Some(if s.starts_with('R') { pat_bytes(l, sd) } else { ascii_bytes(l, sd) })
+    } else {
+        unhex(s)
+    }
+}
+
+fn parse_bytes(s: &str) -> Option<Vec<u8>> {
+    if s == "-" || s.is_empty() {
+        return Some(vec![]);
+    }
+    let mut out = Vec::new();
+    for c in s.split('+') {
+        out.extend(parse_chunk(c)?);
+    }
+    Some(out)
+}
+
+fn fnv32(bs: &[u8]) -> u32 {
+    let mut h: u32 = 2166136261;
+    for b in bs {
+        h = (h ^ *b as u32).wrapping_mul(16777619);
+    }
+    h
+}
+
+fn show_bytes(bs: &[u8]) -> String {
+    if bs.is_empty() {
+        "-".into()
+    } else if bs.len() <= 48 {
+        hex0(bs)
+    } else {
+        format!("#{}.{}", bs.len(), fnv32(bs))
+    }
+}
+
+/// a BytesMut holding `data` whose first byte sits at an address ≡ `al` (mod 4)
+fn aligned_buf(al: usize, data: &[u8], extra: usize) -> BytesMut {
+    let mut b = BytesMut::with_capacity(data.len() + extra + 8);
+    let base = b.as_ptr() as usize;
+    let pad = (al + 4 - base % 4) % 4;
+    b.extend_from_slice(&[0u8; 3][..pad]);
+    b.extend_from_slice(data);
+    b.advance(pad);
+    assert_eq!(b.as_ptr() as usize % 4, al % 4, "harness: could not place the buffer");
+    b
+}
+
+// ------------------------------------------------------------------------------------------
+// canonical display of the implementation's values
+// ------------------------------------------------------------------------------------------
+
+fn show_op(op: ws::OpCode) -> &'static str {
+    match op {
+        ws::OpCode::Continue => "cont",
+        ws::OpCode::Text => "text",
+        ws::OpCode::Binary => "bin",
+        ws::OpCode::Close => "close",
+        ws::OpCode::Ping => "ping",
+        ws::OpCode::Pong => "pong",
+        ws::OpCode::Bad => "bad",
+    }
+}
+
+fn show_err(e: &ProtocolError) -> String {
+    match e {
+        ProtocolError::UnmaskedFrame => "unmasked".into(),
+        ProtocolError::MaskedFrame => "masked".into(),
+        ProtocolError::InvalidOpcode(b) => format!("opcode({b})"),
+        ProtocolError::InvalidLength(n) => format!("length({n})"),
+        ProtocolError::BadOpCode => "badopcode".into(),
+        ProtocolError::Overflow => "overflow".into(),
+        ProtocolError::ContinuationNotStarted => "cont-not-started".into(),
+        ProtocolError::ContinuationStarted => "cont-started".into(),
+        ProtocolError::ContinuationFragment(op) => format!("cont-fragment({})", show_op(*op)),
+        ProtocolError::Io(_) => "io".into(),
+    }
+}
+
+fn show_desc(d: &str) -> String {
+    if d.contains('\u{FFFD}') {
+        "~".into()
+    } else {
+        show_bytes(d.as_bytes())
+    }
+}
+
+fn show_close(code: u16, desc: Option<&str>) -> String {
+    match desc {
+        None => format!("CLOSE:{code}"),
+        Some(d) => format!("CLOSE:{code}:{}", show_desc(d)),
+    }
+}
+
+fn show_frame(f: &Frame) -> String {
+    match f {
+        Frame::Text(b) => format!("T:{}", show_bytes(b)),
+        Frame::Binary(b) => format!("B:{}", show_bytes(b)),
+        Frame::Continuation(Item::FirstText(b)) => format!("CT:{}", show_bytes(b)),
+        Frame::Continuation(Item::FirstBinary(b)) => format!("CB:{}", show_bytes(b)),
+        Frame::Continuation(Item::Continue(b)) => format!("CC:{}", show_bytes(b)),
+        Frame::Continuation(Item::Last(b)) => format!("CL:{}", show_bytes(b)),
+        Frame::Ping(b) => format!("PI:{}", show_bytes(b)),
+        Frame::Pong(b) => format!("PO:{}", show_bytes(b)),
+        Frame::Close(None) => "CLOSE:-".into(),
+        Frame::Close(Some(r)) => show_close(u16::from(r.code), r.description.as_deref()),
+    }
+}
+
+fn frame_payload_len(f: &Frame) -> usize {
+    match f {
+        Frame::Text(b) | Frame::Binary(b) | Frame::Ping(b) | Frame::Pong(b) => b.len(),
+        Frame::Continuation(Item::FirstText(b))
+        | Frame::Continuation(Item::FirstBinary(b))
+        | Frame::Continuation(Item::Continue(b))
+        | Frame::Continuation(Item::Last(b)) => b.len(),
+        Frame::Close(None) => 0,
+        // the raw description is gone (lossy UTF-8): one char stands for at least one byte
+        Frame::Close(Some(r)) => 2 + r.description.as_ref().map(|d| d.chars().count()).unwrap_or(0),
+    }
+}
+
+fn show_frames(fs: &[String]) -> String {
+    if fs.is_empty() {
+        "-".into()
+    } else {
+        fs.join(" ")
+    }
+}
+
+fn mk_codec(role: &str, max: usize) -> Codec {
+    let c = Codec::new().max_size(max);
+    if role == "c" {
+        c.client_mode()
+    } else {
+        c
+    }
+}
+
+/// read-side CONTINUATION flag, observed behaviourally on a clone: a non-final Continue frame is
+/// accepted iff the flag is set
+fn probe_cont(c: &Codec, role: &str) -> bool {
+    let mut c = c.clone();
+    let mut b = if role == "c" { BytesMut::from(&[0u8, 0][..]) } else { BytesMut::from(&[0u8, 0x80, 0, 0, 0, 0][..]) };
+    matches!(c.decode(&mut b), Ok(Some(_)))
+}
+
+/// write-side W_CONTINUATION flag, observed on a clone
+fn probe_wcont(c: &Codec) -> bool {
+    let mut c = c.clone();
+    let mut b = BytesMut::new();
+    c.encode(Message::Continuation(Item::Continue(Bytes::new())), &mut b).is_ok()
+}
+
+// ------------------------------------------------------------------------------------------
+// reference decoder (RFC 6455 §5.2–5.5 + the property's list), independent of the model
+// ------------------------------------------------------------------------------------------
+
+#[derive(Debug, Clone, PartialEq)]
+enum RefOne {
+    Incomplete,
+    Violation(&'static str),
+    Frame { fin: bool, op: u8, payload: Vec<u8>, consumed: usize, rsv: bool },
+}
+
+/// one frame at the head of `b`, as received by an endpoint of the given role
+fn ref_frame(b: &[u8], server: bool, max: usize) -> RefOne {
+    if b.len() < 2 {
+        return RefOne::Incomplete;
+    }
+    let fin = b[0] >> 7 == 1;
+    let rsv = (b[0] >> 4) & 7 != 0;
+    let op = b[0] & 15;
+    let masked = b[1] >> 7 == 1;
+    // §5.1: client→server frames are masked, server→client frames are not
+    if masked != server {
+        return RefOne::Violation("wrong-masking");
+    }
+    // §5.2: 3–7 and 0xB–0xF are reserved
+    if !matches!(op, 0 | 1 | 2 | 8 | 9 | 10) {
+        return RefOne::Violation("reserved-opcode");
+    }
+    let l7 = (b[1] & 127) as usize;
+    let (len, mut idx): (u128, usize) = match l7 {
+        126 => {
+            if b.len() < 4 {
+                return RefOne::Incomplete;
+            }
+            (((b[2] as u128) << 8) | b[3] as u128, 4)
+        }
+        127 => {
+            if b.len() < 10 {
+                return RefOne::Incomplete;
+            }
+            (b[2..10].iter().fold(0u128, |a, x| (a << 8) | *x as u128), 10)
+        }
+        n => (n as u128, 2),
+    };
+    let mut key = [0u8; 4];
+    if masked {
+        if b.len() < idx + 4 {
+            return RefOne::Incomplete;
+        }
+        key.copy_from_slice(&b[idx..idx + 4]);
+        idx += 4;
+    }
+    // the property: "a frame announcing a larger payload is refused without first buffering it"
+    if len > max as u128 {
+        return RefOne::Violation("too-big");
+    }
+    let len = len as usize;
+    if b.len() < idx + len {
+        return RefOne::Incomplete;
+    }
+    let mut payload = b[idx..idx + len].to_vec();
+    if masked {
+        for (i, x) in payload.iter_mut().enumerate() {
+            *x ^= key[i % 4];
+        }
+    }
+    RefOne::Frame { fin, op, payload, consumed: idx + len, rsv }
+}
+
+#[derive(Debug, Clone, PartialEq)]
+enum RefEnd {
+    Incomplete(usize),
+    Violation(&'static str),
+}
+
+fn ref_close(payload: &[u8]) -> String {
+    if payload.len() < 2 {
+        "CLOSE:-".into()
+    } else {
+        let code = ((payload[0] as u16) << 8) | payload[1] as u16;
+        if payload.len() == 2 {
+            show_close(code, None)
+        } else {
+            show_close(code, Some(&String::from_utf8_lossy(&payload[2..])))
+        }
+    }
+}
+
+/// all frames of a byte stream up to the first violation / the incomplete tail
+fn ref_decode(bytes: &[u8], server: bool, max: usize, tags: &mut Vec<String>) -> (Vec<String>, RefEnd, bool) {
+    let mut pos = 0;
+    let mut frames = Vec::new();
+    let mut in_frag = false;
+    loop {
+        match ref_frame(&bytes[pos..], server, max) {
+            RefOne::Incomplete => return (frames, RefEnd::Incomplete(bytes.len() - pos), in_frag),
+            RefOne::Violation(k) => return (frames, RefEnd::Violation(k), in_frag),
+            RefOne::Frame { fin, op, payload, consumed, rsv } => {
+                if rsv {
+                    tags.push("obs:rsv-bits-ignored".into());
+                }
+                let p = show_bytes(&payload);
+                let f = match op {
+                    8 if payload.len() > 125 => {
+                        // O3: the code morphs an over-long Close into a bare Close (any FIN)
+                        tags.push("obs:O3-close>125".into());
+                        "CLOSE:-".to_owned()
+                    }
+                    8..=10 if !fin => return (frames, RefEnd::Violation("ctl-fragmented"), in_frag),
+                    9 | 10 if payload.len() > 125 => return (frames, RefEnd::Violation("ctl-long"), in_frag),
+                    8 => ref_close(&payload),
+                    9 => format!("PI:{p}"),
+                    10 => format!("PO:{p}"),
+                    0 => {
+                        if !in_frag {
+                            return (frames, RefEnd::Violation("cont-no-start"), in_frag);
+                        }
+                        if fin {
+                            in_frag = false;
+                            format!("CL:{p}")
+                        } else {
+                            format!("CC:{p}")
+                        }
+                    }
+                    1 | 2 => {
+                        let t = if op == 1 { "T" } else { "B" };
+                        if fin {
+                            if in_frag {
+                                tags.push("obs:unfragmented-inside-fragmented".into());
+                            }
+                            format!("{t}:{p}")
+                        } else {
+                            if in_frag {
+                                return (frames, RefEnd::Violation("start-inside"), in_frag);
+                            }
+                            in_frag = true;
+                            format!("C{t}:{p}")
+                        }
+                    }
+                    _ => unreachable!(),
+                };
+                frames.push(f);
+                pos += consumed;
+            }
+        }
+    }
+}
+
+// ------------------------------------------------------------------------------------------
+// stream
+// ------------------------------------------------------------------------------------------
+
+struct StreamRun {
+    per_seg: Vec<Vec<String>>,
+    dead: Option<String>,
+    residual: usize,
+    cont: bool,
+    max_payload: usize,
+    /// delivered frames / dead flag after each feed
+    progress: Vec<(usize, bool)>,
+}
+
+fn drive_stream(role: &str, max: usize, al: usize, segs: &[Vec<u8>]) -> StreamRun {
+    let mut codec = mk_codec(role, max);
+    let mut residual: Vec<u8> = Vec::new();
+    let mut dead: Option<String> = None;
+    let mut per_seg = Vec::new();
+    let mut progress = Vec::new();
+    let mut total = 0usize;
+    let mut max_payload = 0usize;
+    for seg in segs {
+        let mut fs = Vec::new();
+        if dead.is_none() {
+            let mut data = std::mem::take(&mut residual);
+            data.extend_from_slice(seg);
+            let mut buf = aligned_buf(al, &data, 0);
+            let mut guard = data.len() + 2;
+            loop {
+                match codec.decode(&mut buf) {
+                    Ok(Some(f)) => {
+                        max_payload = max_payload.max(frame_payload_len(&f));
+                        fs.push(show_frame(&f));
+                    }
+                    Ok(None) => break,
+                    Err(e) => {
+                        dead = Some(show_err(&e));
+                        break;
+                    }
+                }
+                guard -= 1;
+                if guard == 0 {
+                    dead = Some("harness:no-progress".into());
+                    break;
+                }
+            }
+            residual = buf.to_vec();
+        }
+        total += fs.len();
+        progress.push((total, dead.is_some()));
+        per_seg.push(fs);
+    }
+    let cont = probe_cont(&codec, role);
+    StreamRun { per_seg, dead, residual: residual.len(), cont, max_payload, progress }
+}
+
+fn show_end(dead: &Option<String>, residual: usize, cont: bool) -> String {
+    match dead {
+        Some(e) => format!("E:{e} c={}", cont as u8),
+        None => format!("N{residual} c={}", cont as u8),
+    }
+}
+
+fn len_class(n: usize) -> &'static str {
+    match n {
+        0 => "len:0",
+        1..=124 => "len:1-124",
+        125 => "len:125",
+        126 => "len:126",
+        127..=65534 => "len:127-65534",
+        65535 => "len:65535",
+        65536 => "len:65536",
+        _ => "len:>65536",
+    }
+}
+
+fn run_stream(line: &str) -> CaseResult {
+    let role = kv(line, "role").unwrap_or("s");
+    let max: usize = kv(line, "max").and_then(|v| v.parse().ok()).unwrap_or(65536);
+    let al: usize = kv(line, "al").and_then(|v| v.parse().ok()).unwrap_or(0);
+    let Some(seg_str) = line.split_ascii_whitespace().last() else { return CaseResult::ok("bad-case".into()) };
+    let segs: Option<Vec<Vec<u8>>> = seg_str.split('|').map(parse_bytes).collect();
+    let Some(segs) = segs else { return CaseResult::ok("bad-case".into()) };
+    let server = role != "c";
+
+    let r = drive_stream(role, max, al, &segs);
+    let output = format!(
+        "{} ; {}",
+        r.per_seg.iter().map(|f| show_frames(f)).collect::<Vec<_>>().join(" | "),
+        show_end(&r.dead, r.residual, r.cont)
+    );
+    let mut res = CaseResult { output, fail: None, nontrivial: r.progress.last().map(|p| p.0 > 0).unwrap_or(false), tags: vec![] };
+    res.tags.push(format!("stream:{role}"));
+    res.tags.push(format!("al:{al}"));
+    res.tags.push(format!("segs:{}", match segs.len() { 1 => "1", 2 => "2", 3..=8 => "3-8", _ => ">8" }));
+    if let Some(e) = &r.dead {
+        res.tags.push(format!("err:{}", e.split('(').next().unwrap()));
+    }
+
+    // ---- oracle 1: after every feed, the implementation is where the reference decoder is on the
+    //      bytes received so far (this is segmentation independence and early refusal at once)
+    let all: Vec<u8> = segs.concat();
+    let impl_frames: Vec<String> = r.per_seg.iter().flatten().cloned().collect();
+    let mut upto = 0;
+    let mut otags = Vec::new();
+    for (k, seg) in segs.iter().enumerate() {
+        upto += seg.len();
+        let mut t = Vec::new();
+        let (rf, rend, _) = ref_decode(&all[..upto], server, max, &mut t);
+        if k + 1 == segs.len() {
+            otags = t;
+        }
+        let (n, dead) = r.progress[k];
+        let got = &impl_frames[..n];
+        match rend {
+            RefEnd::Violation(kind) => {
+                if !dead {
+                    res = res.fail(
+                        &format!("not-rejected:{kind}"),
+                        format!("after feed {k} ({upto} bytes) the stream contains a {kind} violation but the codec has not failed (delivered {})", n),
+                    );
+                } else if got != &rf[..] {
+                    res = res.fail("frames-differ", format!("after feed {k}: delivered [{}] reference [{}]", got.join(" "), rf.join(" ")));
+                }
+                res.tags.push(format!("viol:{kind}"));
+                break;
+            }
+            RefEnd::Incomplete(_) => {
+                if dead {
+                    res = res.fail(
+                        "rejects-valid",
+                        format!("after feed {k} ({upto} bytes) the codec failed with {:?} on a prefix of a valid stream", r.dead),
+                    );
+                    break;
+                } else if got != &rf[..] {
+                    res = res.fail("frames-differ", format!("after feed {k}: delivered [{}] reference [{}]", got.join(" "), rf.join(" ")));
+                    break;
+                }
+            }
+        }
+    }
+    res.tags.extend(otags);
+    // ---- oracle 2: no delivered frame exceeds max_size
+    if r.max_payload > max {
+        res = res.fail("exceeds-max", format!("delivered a payload of {} bytes with max_size {}", r.max_payload, max));
+    }
+    // ---- oracle 3: same bytes in one read ⇒ same frames, same end
+    if segs.len() > 1 {
+        let one = drive_stream(role, max, al, &[all.clone()]);
+        let a: Vec<String> = one.per_seg.into_iter().flatten().collect();
+        if a != impl_frames || one.dead.is_some() != r.dead.is_some() || (one.dead.is_none() && (one.residual != r.residual || one.cont != r.cont)) {
+            res = res.fail(
+                "segmentation",
+                format!("one read: [{}] {} — as segmented: [{}] {}", a.join(" "), show_end(&one.dead, one.residual, one.cont), impl_frames.join(" "), show_end(&r.dead, r.residual, r.cont)),
+            );
+        }
+    }
+    res
+}
+
+// ------------------------------------------------------------------------------------------
+// parse
+// ------------------------------------------------------------------------------------------
+
+fn run_parse(line: &str) -> CaseResult {
+    let role = kv(line, "role").unwrap_or("s");
+    let max: usize = kv(line, "max").and_then(|v| v.parse().ok()).unwrap_or(65536);
+    let al: usize = kv(line, "al").and_then(|v| v.parse().ok()).unwrap_or(0);
+    let Some(src) = line.split_ascii_whitespace().last().and_then(parse_bytes) else { return CaseResult::ok("bad-case".into()) };
+    let server = role != "c";
+    let mut buf = aligned_buf(al, &src, 0);
+    let r = Parser::parse(&mut buf, server, max);
+    let rest = buf.len();
+    let output = match &r {
+        Ok(None) => format!("N r={rest}"),
+        Err(e) => format!("E:{} r={rest}", show_err(e)),
+        Ok(Some((fin, op, pl))) => format!(
+            "F {} {} {} r={rest}",
+            *fin as u8,
+            show_op(*op),
+            pl.as_ref().map(|b| show_bytes(b)).unwrap_or_else(|| "none".into())
+        ),
+    };
+    let mut res = CaseResult { output, fail: None, nontrivial: matches!(r, Ok(Some(_))), tags: vec![format!("parse:{role}"), format!("al:{al}")] };
+    // oracle: reference single frame
+    match ref_frame(&src, server, max) {
+        RefOne::Incomplete => {
+            res.tags.push("ref:incomplete".into());
+            match &r {
+                Ok(None) => {
+                    if rest != src.len() {
+                        res = res.fail("consumed-on-incomplete", format!("Ok(None) but {} of {} bytes left", rest, src.len()));
+                    }
+                }
+                Err(e) => res = res.fail("rejects-valid", format!("incomplete valid prefix rejected with {}", show_err(e))),
+                Ok(Some(_)) => res = res.fail("frames-differ", "frame delivered from an incomplete buffer".into()),
+            }
+        }
+        RefOne::Violation(kind) => {
+            res.tags.push(format!("viol:{kind}"));
+            if !r.is_err() {
+                let o = res.output.clone();
+                res = res.fail(&format!("not-rejected:{kind}"), format!("{kind} violation, parse returned {o}"));
+            }
+        }
+        RefOne::Frame { fin, op, payload, consumed, .. } => {
+            res.tags.push(len_class(payload.len()).into());
+            let ctl_long = matches!(op, 9 | 10) && payload.len() > 125;
+            let close_long = op == 8 && payload.len() > 125;
+            match &r {
+                Ok(Some((f, o, pl))) => {
+                    let opn = match o {
+                        ws::OpCode::Continue => 0,
+                        ws::OpCode::Text => 1,
+                        ws::OpCode::Binary => 2,
+                        ws::OpCode::Close => 8,
+                        ws::OpCode::Ping => 9,
+                        ws::OpCode::Pong => 10,
+                        ws::OpCode::Bad => 255,
+                    };
+                    let got: &[u8] = pl.as_ref().map(|b| &b[..]).unwrap_or(&[]);
+                    if ctl_long {
+                        res = res.fail("not-rejected:ctl-long", format!("{}-byte control frame delivered", payload.len()));
+                    } else if close_long {
+                        res.tags.push("obs:O3-close>125".into());
+                        if !(*f && opn == 8 && pl.is_none()) {
+                            res = res.fail("frames-differ", "over-long Close neither refused nor morphed to a bare Close".into());
+                        }
+                    } else if *f != fin || opn != op || got != &payload[..] || pl.is_some() != !payload.is_empty() {
+                        let o = res.output.clone();
+                        res = res.fail("frames-differ", format!("got {} want fin={} op={} payload={}", o, fin, op, show_bytes(&payload)));
+                    }
+                    if rest != src.len() - consumed {
+                        res = res.fail("frames-differ", format!("left {} bytes, frame is {} of {}", rest, consumed, src.len()));
+                    }
+                    if got.len() > max {
+                        res = res.fail("exceeds-max", format!("payload {} > max {}", got.len(), max));
+                    }
+                }
+                Ok(None) => res = res.fail("frames-differ", "complete frame not delivered".into()),
+                Err(e) => {
+                    if !ctl_long {
+                        res = res.fail("rejects-valid", format!("valid frame rejected with {}", show_err(e)));
+                    } else {
+                        res.tags.push("viol:ctl-long".into());
+                    }
+                }
+            }
+        }
+    }
+    res
+}
+
+// ------------------------------------------------------------------------------------------
+// enc
+// ------------------------------------------------------------------------------------------
+
+#[derive(Clone, Debug)]
+enum Msg {
+    T(Vec<u8>),
+    B(Vec<u8>),
+    Pi(Vec<u8>),
+    Po(Vec<u8>),
+    Ct(Vec<u8>),
+    Cb(Vec<u8>),
+    Cc(Vec<u8>),
+    Cl(Vec<u8>),
+    Close(Option<(u16, Option<Vec<u8>>)>),
+    Nop,
+}
+
+fn parse_msg(tok: &str) -> Option<Msg> {
+    if tok == "NOP" {
+        return Some(Msg::Nop);
+    }
+    let parts: Vec<&str> = tok.split(':').collect();
+    Some(match parts.as_slice() {
+        ["T", p] => Msg::T(parse_bytes(p)?),
+        ["B", p] => Msg::B(parse_bytes(p)?),
+        ["PI", p] => Msg::Pi(parse_bytes(p)?),
+        ["PO", p] => Msg::Po(parse_bytes(p)?),
+        ["CT", p] => Msg::Ct(parse_bytes(p)?),
+        ["CB", p] => Msg::Cb(parse_bytes(p)?),
+        ["CC", p] => Msg::Cc(parse_bytes(p)?),
+        ["CL", p] => Msg::Cl(parse_bytes(p)?),
+        ["CLOSE", "-"] => Msg::Close(None),
+        ["CLOSE", c] => Msg::Close(Some((c.parse().ok()?, None))),
+        ["CLOSE", c, d] => Msg::Close(Some((c.parse().ok()?, Some(parse_bytes(d)?)))),
+        _ => return None,
+    })
+}
+
+fn to_message(m: &Msg) -> Option<Message> {
+    Some(match m {
+        Msg::T(p) => Message::Text(String::from_utf8(p.clone()).ok()?.into()),
+        Msg::B(p) => Message::Binary(Bytes::from(p.clone())),
+        Msg::Pi(p) => Message::Ping(Bytes::from(p.clone())),
+        Msg::Po(p) => Message::Pong(Bytes::from(p.clone())),
+        Msg::Ct(p) => Message::Continuation(Item::FirstText(Bytes::from(p.clone()))),
+        Msg::Cb(p) => Message::Continuation(Item::FirstBinary(Bytes::from(p.clone()))),
+        Msg::Cc(p) => Message::Continuation(Item::Continue(Bytes::from(p.clone()))),
+        Msg::Cl(p) => Message::Continuation(Item::Last(Bytes::from(p.clone()))),
+        Msg::Close(None) => Message::Close(None),
+        Msg::Close(Some((c, d))) => Message::Close(Some(ws::CloseReason {
+            code: ws::CloseCode::from(*c),
+            description: match d {
+                None => None,
+                Some(d) => Some(String::from_utf8(d.clone()).ok()?),
+            },
+        })),
+        Msg::Nop => Message::Nop,
+    })
+}
+
+/// what the peer must see, from the property's words alone (no model, no wire inspection):
+/// every message arrives as the same message; control payloads > 125 and payloads > max are
+/// protocol violations at the receiver; the sender refuses ill-bracketed continuations.
+fn expect_roundtrip(msgs: &[Msg], max: usize, tags: &mut Vec<String>) -> (Vec<bool>, Vec<String>, bool) {
+    let mut w = false;
+    let mut enc_ok = Vec::new();
+    let mut frames = Vec::new();
+    let mut dead = false;
+    for m in msgs {
+        let (ok, f, plen, ctl): (bool, Option<String>, usize, bool) = match m {
+            Msg::T(p) => (true, Some(format!("T:{}", show_bytes(p))), p.len(), false),
+            Msg::B(p) => (true, Some(format!("B:{}", show_bytes(p))), p.len(), false),
+            Msg::Pi(p) => (true, Some(format!("PI:{}", show_bytes(p))), p.len(), true),
+            Msg::Po(p) => (true, Some(format!("PO:{}", show_bytes(p))), p.len(), true),
+            Msg::Ct(p) | Msg::Cb(p) => {
+                if w {
+                    (false, None, 0, false)
+                } else {
+                    w = true;
+                    let t = if matches!(m, Msg::Ct(_)) { "CT" } else { "CB" };
+                    (true, Some(format!("{t}:{}", show_bytes(p))), p.len(), false)
+                }
+            }
+            Msg::Cc(p) => {
+                if w {
+                    (true, Some(format!("CC:{}", show_bytes(p))), p.len(), false)
+                } else {
+                    (false, None, 0, false)
+                }
+            }
+            Msg::Cl(p) => {
+                if w {
+                    w = false;
+                    (true, Some(format!("CL:{}", show_bytes(p))), p.len(), false)
+                } else {
+                    (false, None, 0, false)
+                }
+            }
+            Msg::Close(None) => (true, Some("CLOSE:-".into()), 0, false),
+            Msg::Close(Some((c, d))) => {
+                let dl = d.as_ref().map(|d| d.len()).unwrap_or(0);
+                let f = if 2 + dl > 125 {
+                    tags.push("obs:O3-close>125".into());
+                    "CLOSE:-".to_owned()
+                } else if dl == 0 {
+                    show_close(*c, None)
+                } else {
+                    show_close(*c, Some(std::str::from_utf8(d.as_ref().unwrap()).unwrap_or("\u{FFFD}")))
+                };
+                (true, Some(f), 2 + dl, false)
+            }
+            Msg::Nop => (true, None, 0, false),
+        };
+        enc_ok.push(ok);
+        if dead || !ok {
+            continue;
+        }
+        if let Some(f) = f {
+            tags.push(len_class(plen).into());
+            if plen > max {
+                tags.push("viol:too-big".into());
+                dead = true;
+            } else if ctl && plen > 125 {
+                tags.push("viol:ctl-long".into());
+                dead = true;
+            } else {
+                frames.push(f);
+            }
+        }
+    }
+    (enc_ok, frames, dead)
+}
+
+fn run_enc(line: &str) -> CaseResult {
+    let role = kv(line, "role").unwrap_or("s");
+    let max: usize = kv(line, "max").and_then(|v| v.parse().ok()).unwrap_or(65536);
+    let al: usize = kv(line, "al").and_then(|v| v.parse().ok()).unwrap_or(0);
+    let key: Vec<u8> = kv(line, "k").and_then(unhex).filter(|k| k.len() == 4).unwrap_or_else(|| vec![0; 4]);
+    let toks: Vec<&str> = line
+        .split_ascii_whitespace()
+        .filter(|w| !(w.starts_with("role=") || w.starts_with("max=") || w.starts_with("al=") || w.starts_with("k=") || *w == "enc"))
+        .collect();
+    let msgs: Option<Vec<Msg>> = toks.iter().map(|t| parse_msg(t)).collect();
+    let Some(msgs) = msgs else { return CaseResult::ok("bad-case".into()) };
+    let rmsgs: Option<Vec<Message>> = msgs.iter().map(to_message).collect();
+    let Some(rmsgs) = rmsgs else { return CaseResult::ok("bad-case".into()) };
+
+    let total: usize = toks.iter().map(|t| t.len()).sum::<usize>() + msgs.len() * 16;
+    let cap: usize = msgs
+        .iter()
+        .map(|m| match m {
+            Msg::T(p) | Msg::B(p) | Msg::Pi(p) | Msg::Po(p) | Msg::Ct(p) | Msg::Cb(p) | Msg::Cc(p) | Msg::Cl(p) => p.len() + 14,
+            Msg::Close(Some((_, Some(d)))) => d.len() + 16,
+            _ => 16,
+        })
+        .sum::<usize>()
+        + total;
+    let mut enc = mk_codec(role, max);
+    // enough capacity up front: no reallocation, so the payload addresses are known
+    let mut dst = aligned_buf(al, &[], cap + 64);
+    let base_ptr = dst.as_ptr();
+    let mut encs: Vec<String> = Vec::new();
+    let mut enc_ok: Vec<bool> = Vec::new();
+    for m in rmsgs {
+        let before = dst.len();
+        match enc.encode(m, &mut dst) {
+            Ok(()) => {
+                // canonicalise the random masking key to the case's key `k`
+                let mut piece = dst[before..].to_vec();
+                if role == "c" && piece.len() >= 2 {
+                    let l7 = piece[1] & 127;
+                    let idx = match l7 {
+                        126 => 4,
+                        127 => 10,
+                        _ => 2,
+                    };
+                    if piece.len() >= idx + 4 {
+                        let mut actual = [0u8; 4];
+                        actual.copy_from_slice(&piece[idx..idx + 4]);
+                        piece[idx..idx + 4].copy_from_slice(&key);
+                        for (i, b) in piece[idx + 4..].iter_mut().enumerate() {
+                            *b ^= actual[i % 4] ^ key[i % 4];
+                        }
+                    }
+                }
+                encs.push(show_bytes(&piece));
+                enc_ok.push(true);
+            }
+            Err(e) => {
+                encs.push(format!("E:{}", show_err(&e)));
+                enc_ok.push(false);
+            }
+        }
+    }
+    let moved = dst.as_ptr() != base_ptr;
+    let wire = dst.to_vec();
+    let peer_role = if role == "c" { "s" } else { "c" };
+    let r = drive_stream(peer_role, max, al, &[wire.clone()]);
+    let frames: Vec<String> = r.per_seg.iter().flatten().cloned().collect();
+    let output = format!(
+        "{} w={} => {} ; {}",
+        if encs.is_empty() { "-".into() } else { encs.join(" ") },
+        probe_wcont(&enc) as u8,
+        show_frames(&frames),
+        show_end(&r.dead, r.residual, r.cont)
+    );
+    let mut res = CaseResult { output, fail: None, nontrivial: !frames.is_empty(), tags: vec![format!("enc:{role}"), format!("al:{al}")] };
+    if moved {
+        res.tags.push("harness:dst-moved".into());
+    }
+    // ---- oracle: round trip
+    let mut t = Vec::new();
+    let (want_ok, want_frames, want_dead) = expect_roundtrip(&msgs, max, &mut t);
+    res.tags.extend(t);
+    if want_ok != enc_ok {
+        res = res.fail("encode-bracketing", format!("encode results {:?}, expected {:?}", enc_ok, want_ok));
+    } else if frames != want_frames {
+        res = res.fail("roundtrip", format!("peer decoded [{}], sent [{}]", frames.join(" "), want_frames.join(" ")));
+    } else if want_dead != r.dead.is_some() {
+        if want_dead {
+            res = res.fail("not-rejected:oversize-or-long-control", "peer accepted a frame it must refuse".into());
+        } else {
+            res = res.fail("roundtrip", format!("peer failed with {:?} on frames its own codec produced", r.dead));
+        }
+    } else if !want_dead && r.residual != 0 {
+        res = res.fail("roundtrip", format!("{} bytes left undecoded at the peer", r.residual));
+    }
+    // ---- the wire itself is what RFC 6455 says (reference decoder reads the same frames)
+    let mut t2 = Vec::new();
+    let (rf, rend, _) = ref_decode(&wire, peer_role != "c", usize::MAX >> 1, &mut t2);
+    let mut want_wire = Vec::new();
+    let mut t3 = Vec::new();
+    let (_, all_frames, _) = expect_roundtrip(&msgs, usize::MAX >> 1, &mut t3);
+    want_wire.extend(all_frames);
+    // (long Ping/Pong are violations for the reference as well: compare only up to there)
+    if !matches!(rend, RefEnd::Incomplete(0)) && !t3.iter().any(|x| x == "viol:ctl-long") {
+        res = res.fail("wire-format", format!("reference decoder stops on the encoder's output: {:?}", rend));
+    } else if rf != want_wire {
+        res = res.fail("wire-format", format!("reference decoder reads [{}] from the wire, sent [{}]", rf.join(" "), want_wire.join(" ")));
+    }
+    if r.max_payload > max {
+        res = res.fail("exceeds-max", format!("delivered a payload of {} bytes with max_size {}", r.max_payload, max));
+    }
+    res
+}
+
+// ------------------------------------------------------------------------------------------
+// handshake / key
+// ------------------------------------------------------------------------------------------
+
+/// SHA-1 (FIPS 180-4), written for the oracle
+fn o_sha1(msg: &[u8]) -> [u8; 20] {
+    let mut h: [u32; 5] = [0x67452301, 0xEFCDAB89, 0x98BADCFE, 0x10325476, 0xC3D2E1F0];
+    let mut m = msg.to_vec();
+    m.push(0x80);
+    while m.len() % 64 != 56 {
+        m.push(0);
+    }
+    m.extend_from_slice(&((msg.len() as u64) * 8).to_be_bytes());
+    for blk in m.chunks(64) {
+        let mut w = [0u32; 80];
+        for i in 0..16 {
+            w[i] = u32::from_be_bytes([blk[4 * i], blk[4 * i + 1], blk[4 * i + 2], blk[4 * i + 3]]);
+        }
+        for i in 16..80 {
+            w[i] = (w[i - 3] ^ w[i - 8] ^ w[i - 14] ^ w[i - 16]).rotate_left(1);
+        }
+        let [mut a, mut b, mut c, mut d, mut e] = h;
+        for (i, wi) in w.iter().enumerate() {
+            let (f, k) = match i / 20 {
+                0 => ((b & c) | (!b & d), 0x5A827999u32),
+                1 => (b ^ c ^ d, 0x6ED9EBA1),
+                2 => ((b & c) | (b & d) | (c & d), 0x8F1BBCDC),
+                _ => (b ^ c ^ d, 0xCA62C1D6),
+            };
+            let t = a.rotate_left(5).wrapping_add(f).wrapping_add(e).wrapping_add(k).wrapping_add(*wi);
+            e = d;
+            d = c;
+            c = b.rotate_left(30);
+            b = a;
+            a = t;
+        }
+        h[0] = h[0].wrapping_add(a);
+        h[1] = h[1].wrapping_add(b);
+        h[2] = h[2].wrapping_add(c);
+        h[3] = h[3].wrapping_add(d);
+        h[4] = h[4].wrapping_add(e);
+    }
+    let mut out = [0u8; 20];
+    for i in 0..5 {
+        out[4 * i..4 * i + 4].copy_from_slice(&h[i].to_be_bytes());
+    }
+    out
+}
+
+fn o_base64(bs: &[u8]) -> String {
+    const A: &[u8; 64] = b"ABCDEFGHIJKLMNOPQRSTUVWXYZabcdefghijklmnopqrstuvwxyz0123456789+/";
+    let mut s = String::new();
+    for c in bs.chunks(3) {
+        let n = (c[0] as u32) << 16 | (*c.get(1).unwrap_or(&0) as u32) << 8 | *c.get(2).unwrap_or(&0) as u32;
+        s.push(A[(n >> 18) as usize & 63] as char);
+        s.push(A[(n >> 12) as usize & 63] as char);
+        s.push(if c.len() > 1 { A[(n >> 6) as usize & 63] as char } else { '=' });
+        s.push(if c.len() > 2 { A[n as usize & 63] as char } else { '=' });
+    }
+    s
+}
+
+const GUID: &[u8] = b"258EAFA5-E914-47DA-95CA-C5AB0DC85B11";
+
+fn o_accept(key: &[u8]) -> String {
+    let mut m = key.to_vec();
+    m.extend_from_slice(GUID);
+    o_base64(&o_sha1(&m))
+}
+
+fn run_key(line: &str) -> CaseResult {
+    let Some(k) = line.split_ascii_whitespace().nth(1).and_then(parse_bytes) else { return CaseResult::ok("bad-case".into()) };
+    let got = ws::hash_key(&k);
+    let output = String::from_utf8_lossy(&got).into_owned();
+    let mut res = CaseResult { output: output.clone(), fail: None, nontrivial: true, tags: vec!["key".into(), format!("keylen%64:{}", (k.len() + 36) % 64)] };
+    let want = o_accept(&k);
+    if want != output {
+        res = res.fail("accept-key", format!("hash_key = {output}, RFC 6455 §4.2.2 gives {want}"));
+    }
+    res
+}
+
+fn visible(v: &[u8]) -> bool {
+    v.iter().all(|b| (32..127).contains(b) || *b == 9)
+}
+
+fn contains_ci(v: &[u8], pat: &str) -> bool {
+    visible(v) && String::from_utf8_lossy(v).to_ascii_lowercase().contains(pat)
+}
+
+fn run_hs(line: &str) -> CaseResult {
+    let m = kv(line, "m").unwrap_or("GET");
+    let mut hdrs: Vec<(String, Vec<u8>)> = Vec::new();
+    for w in line.split_ascii_whitespace() {
+        if w == "hs" || w.starts_with("m=") {
+            continue;
+        }
+        let Some((n, v)) = w.split_once('=') else { return CaseResult::ok("bad-case".into()) };
+        let Some(v) = parse_bytes(v) else { return CaseResult::ok("bad-case".into()) };
+        hdrs.push((n.to_owned(), v));
+    }
+    let mut head = RequestHead::default();
+    let Ok(method) = Method::from_bytes(m.as_bytes()) else { return CaseResult::ok("bad-case".into()) };
+    head.method = method;
+    for (n, v) in &hdrs {
+        let (Ok(n), Ok(v)) = (HeaderName::from_bytes(n.as_bytes()), HeaderValue::from_bytes(v)) else {
+            return CaseResult::ok("bad-case".into());
+        };
+        head.headers.append(n, v);
+    }
+    let r = ws::handshake(&head);
+    let (output, accept) = match r {
+        Err(e) => (
+            format!(
+                "E:{}",
+                match e {
+                    ws::HandshakeError::GetMethodRequired => "method",
+                    ws::HandshakeError::NoWebsocketUpgrade => "no-upgrade",
+                    ws::HandshakeError::NoConnectionUpgrade => "no-connection",
+                    ws::HandshakeError::NoVersionHeader => "no-version",
+                    ws::HandshakeError::UnsupportedVersion => "bad-version",
+                    ws::HandshakeError::BadWebsocketKey => "no-key",
+                }
+            ),
+            None,
+        ),
+        Ok(mut b) => {
+            let res = b.finish();
+            let acc = res
+                .headers()
+                .get("sec-websocket-accept")
+                .map(|v| String::from_utf8_lossy(v.as_bytes()).into_owned())
+                .unwrap_or_else(|| "?".into());
+            let up = res.headers().get("upgrade").map(|v| String::from_utf8_lossy(v.as_bytes()).into_owned()).unwrap_or_else(|| "?".into());
+            (format!("OK {} up={} cu={} accept={}", res.status().as_u16(), up, res.head().upgrade() as u8, acc), Some(acc))
+        }
+    };
+    let mut res = CaseResult { output, fail: None, nontrivial: accept.is_some(), tags: vec!["hs".into()] };
+    // oracle: the property's "well-formed upgrade request", read as the code reads it (first value
+    // of each header; see docs/C14.md, O4), and the RFC accept key
+    let first = |name: &str| hdrs.iter().find(|(n, _)| n.eq_ignore_ascii_case(name)).map(|(_, v)| v.clone());
+    let well_formed = m == "GET"
+        && first("upgrade").map(|v| contains_ci(&v, "websocket")).unwrap_or(false)
+        && first("connection").map(|v| contains_ci(&v, "upgrade")).unwrap_or(false)
+        && first("sec-websocket-version").map(|v| v == b"13" || v == b"8" || v == b"7").unwrap_or(false)
+        && first("sec-websocket-key").is_some();
+    // RFC 6455 §4.2.1 read strictly (token lists, version 13, 16-byte base64 key)
+    let token_in = |v: &[u8], t: &str| String::from_utf8_lossy(v).split(',').any(|x| x.trim().eq_ignore_ascii_case(t));
+    let strict = m == "GET"
+        && first("upgrade").map(|v| token_in(&v, "websocket")).unwrap_or(false)
+        && first("connection").map(|v| token_in(&v, "upgrade")).unwrap_or(false)
+        && first("sec-websocket-version").map(|v| v == b"13").unwrap_or(false)
+        && first("sec-websocket-key").map(|v| v.len() == 24 && v.ends_with(b"==") && visible(&v)).unwrap_or(false);
+    match (&accept, well_formed) {
+        (Some(_), false) => res = res.fail("handshake-accepts-malformed", "accepted a request that is not a well-formed upgrade".into()),
+        (None, true) => {
+            let o = res.output.clone();
+            res = res.fail("handshake-rejects-wellformed", format!("rejected ({o}) a well-formed upgrade request"))
+        }
+        _ => {}
+    }
+    if accept.is_some() && !strict {
+        res.tags.push("obs:O4-lenient-accept".into());
+    }
+    if strict && accept.is_none() {
+        res = res.fail("handshake-rejects-wellformed", "rejected an RFC-strict upgrade request".into());
+    }
+    if let Some(acc) = accept {
+        let want = o_accept(&first("sec-websocket-key").unwrap_or_default());
+        if acc != want {
+            res = res.fail("accept-key", format!("sec-websocket-accept = {acc}, RFC 6455 §4.2.2 gives {want}"));
+        }
+        res.tags.push("hs:ok".into());
+    } else {
+        res.tags.push(format!("hs:{}", res.output));
+    }
+    res
+}
+
+fn run_closecodes() -> CaseResult {
+    let mut res = CaseResult::ok("ok".into()).tag("closecodes");
+    for n in 0..=u16::MAX {
+        let c = ws::CloseCode::from(n);
+        if u16::from(c) != n {
+            res = res.fail("closecode-mapping", format!("u16 {n} → {:?} → {}", c, u16::from(c)));
+            res.output = "differs".into();
+            break;
+        }
+    }
+    res
+}
+
+fn run(line: &str) -> CaseResult {
+    match line.split_ascii_whitespace().next() {
+        Some("stream") => run_stream(line),
+        Some("parse") => run_parse(line),
+        Some("enc") => run_enc(line),
+        Some("hs") => run_hs(line),
+        Some("key") => run_key(line),
+        Some("closecodes") => run_closecodes(),
+        _ => CaseResult::ok("bad-case".into()),
+    }
+}
+
+// ------------------------------------------------------------------------------------------
+// generator
+// ------------------------------------------------------------------------------------------
+
+/// generator-side frame encoder (explicit key, any opcode nibble / flags / length form)
+fn g_frame(first: u8, masked: bool, key: [u8; 4], payload: &[u8], form: u8, announced: Option<u64>) -> Vec<u8> {
+    let n = announced.unwrap_or(payload.len() as u64);
+    let mut out = vec![first];
+    let mb = if masked { 0x80 } else { 0 };
+    // form: 0 = shortest, 1 = force 16-bit, 2 = force 64-bit
+    if form == 0 && n < 126 {
+        out.push(mb | n as u8);
+    } else if form <= 1 && n <= 65535 {
+        out.push(mb | 126);
+        out.extend_from_slice(&(n as u16).to_be_bytes());
+    } else {
+        out.push(mb | 127);
+        out.extend_from_slice(&n.to_be_bytes());
+    }
+    if masked {
+        out.extend_from_slice(&key);
+        out.extend(payload.iter().enumerate().map(|(i, b)| b ^ key[i % 4]));
+    } else {
+        out.extend_from_slice(payload);
+    }
+    out
+}
+
+fn hex_or_dash(b: &[u8]) -> String {
+    hex(b)
+}
+
+fn cut_at(bytes: &[u8], cuts: &[usize]) -> String {
+    let mut segs = Vec::new();
+    let mut prev = 0;
+    for &c in cuts {
+        segs.push(hex_or_dash(&bytes[prev..c]));
+        prev = c;
+    }
+    segs.push(hex_or_dash(&bytes[prev..]));
+    segs.join("|")
+}
+
+fn rand_cuts(rng: &mut Rng, n: usize, k: usize) -> Vec<usize> {
+    let mut c: Vec<usize> = (0..k).map(|_| rng.below(n + 1)).collect();
+    c.sort();
+    c
+}
+
+const LENS: &[usize] = &[0, 1, 2, 3, 4, 5, 7, 8, 15, 16, 17, 31, 64, 124, 125, 126, 127, 128, 200, 255, 256, 257, 1000];
+const BIG_LENS: &[usize] = &[65534, 65535, 65536, 65537, 66000];
+
+fn gen(ctx: &Ctx) -> Vec<String> {
+    let mut rng = Rng::new(ctx.seed);
+    let mut cases: Vec<String> = Vec::new();
+    let thorough = ctx.tier != Tier::Quick;
+    cases.push("closecodes".into());
+
+    // ---- parse: every first byte x selected second bytes x both roles (header decision table)
+    let seconds: &[u8] = &[0, 1, 5, 125, 126, 127, 128, 129, 133, 253, 254, 255];
+    for role in ["s", "c"] {
+        for first in 0..=255u8 {
+            for &second in seconds {
+                if !thorough && ctx.tier == Tier::Quick && first % 16 > 10 && first % 16 != 15 && second != 1 && second != 129 {
+                    continue;
+                }
+                let mut b = vec![first, second];
+                b.extend_from_slice(&[0, 3, 1, 2, 3, 4, 9, 9, 9, 9, 7, 7, 7, 7, 7, 7, 7, 7]);
+                cases.push(format!("parse role={role} max=1024 al={} {}", first % 4, hex(&b)));
+            }
+        }
+    }
+    // ---- parse: length fields at their boundaries, each truncated at every header position
+    let l64: &[u64] = &[0, 1, 125, 126, 65535, 65536, 1 << 32, (1 << 63) - 1, 1 << 63, u64::MAX - 14, u64::MAX - 13, u64::MAX - 10, u64::MAX - 9, u64::MAX - 5, u64::MAX];
+    for role in ["s", "c"] {
+        let masked = role == "s";
+        for &n in l64 {
+            for form in [1u8, 2] {
+                if form == 1 && n > 65535 {
+                    continue;
+                }
+                for max in [0usize, 125, 65535, 65536, 1 << 20] {
+                    let pl: Vec<u8> = if n <= 300 { pat_bytes(n as usize, 7) } else { pat_bytes(20, 7) };
+                    let f = g_frame(0x82, masked, [1, 2, 3, 4], &pl, form, Some(n));
+                    let hdr = f.len() - pl.len();
+                    for cut in 0..=hdr {
+                        cases.push(format!("parse role={role} max={max} al={} {}", cut % 4, hex(&f[..cut])));
+                    }
+                    cases.push(format!("parse role={role} max={max} al=0 {}", hex(&f)));
+                    // the same through the codec loop, header first then the rest (F4 class)
+                    cases.push(format!("stream role={role} max={max} al=0 {}|{}", hex(&f[..hdr]), hex(&f[hdr..])));
+                }
+            }
+        }
+    }
+    // ---- parse: mask alignment x length (fast path = fallback at all four alignments)
+    for al in 0..4 {
+        for len in 0..=40usize {
+            let key = [rng.next() as u8, rng.next() as u8, rng.next() as u8, rng.next() as u8];
+            let pl = rng.bytes(len);
+            for form in [0u8, 1, 2] {
+                if form > 0 && len % 5 != 0 {
+                    continue;
+                }
+                let f = g_frame(0x82, true, key, &pl, form, None);
+                cases.push(format!("parse role=s max=65536 al={al} {}", hex(&f)));
+            }
+        }
+    }
+    // ---- parse / stream: every opcode x boundary lengths x roles, shortest and over-wide length forms
+    for role in ["s", "c"] {
+        let masked = role == "s";
+        for &op in &[0u8, 1, 2, 8, 9, 10] {
+            for fin in [0u8, 0x80] {
+                for &len in &[0usize, 1, 2, 3, 124, 125, 126, 127, 300] {
+                    let key = [rng.next() as u8, rng.next() as u8, rng.next() as u8, rng.next() as u8];
+                    let mut pl = rng.bytes(len);
+                    if op == 8 && len >= 2 {
+                        pl[0] = 3;
+                        pl[1] = 232 + (rng.below(16) as u8);
+                    }
+                    let f = g_frame(fin | op, masked, key, &pl, 0, None);
+                    let al = rng.below(4);
+                    cases.push(format!("parse role={role} max=65536 al={al} {}", hex(&f)));
+                    let cut = rng.below(f.len() + 1);
+                    cases.push(format!("stream role={role} max=65536 al={al} {}", cut_at(&f, &[cut])));
+                    // around max_size
+                    for max in [len.saturating_sub(1), len, len + 1] {
+                        cases.push(format!("stream role={role} max={max} al={al} {}", hex(&f)));
+                    }
+                }
+            }
+        }
+        // big payloads via pattern chunks
+        for &len in BIG_LENS {
+            for &(op, max) in &[(2u8, 1usize << 20), (1, len), (2, len - 1), (9, 1 << 20), (8, 1 << 20)] {
+                let key = [rng.next() as u8, rng.next() as u8, rng.next() as u8, rng.next() as u8];
+                let hdr = g_frame(0x80 | op, masked, key, &[], if len <= 65535 { 1 } else { 2 }, Some(len as u64));
+                let seed = rng.below(256);
+                let al = rng.below(4);
+                cases.push(format!("stream role={role} max={max} al={al} {}+R{len}.{seed}", hex(&hdr)));
+                cases.push(format!("stream role={role} max={max} al={al} {}|R{}.{seed}|R{}.{}", hex(&hdr), len / 2, len - len / 2, (seed + 31 * (len / 2)) % 256));
+            }
+        }
+    }
+
+    // ---- stream: valid conversations, all 2-cuts / 1-byte feeds / random cuts
+    let n_conv = ctx.budget(140);
+    for ci in 0..n_conv {
+        let role = if rng.chance(1, 2) { "s" } else { "c" };
+        let masked = role == "s";
+        let nf = rng.range(1, 6);
+        let mut bytes = Vec::new();
+        let mut in_frag = false;
+        let illegal = ci % 3 == 2; // every third conversation gets one illegal frame somewhere
+        let bad_at = if illegal { rng.below(nf) } else { usize::MAX };
+        let max = *rng.pick(&[125usize, 126, 300, 1024, 65536]);
+        for fi in 0..nf {
+            let key = [rng.next() as u8, rng.next() as u8, rng.next() as u8, rng.next() as u8];
+            let len = if rng.chance(1, 6) { *rng.pick(&[124usize, 125, 126, 127, 128]) } else { rng.below(24) };
+            let mut pl = rng.bytes(len);
+            // pick a legal next frame
+            let choice = rng.below(10);
+            let (mut first, ctl) = if choice < 3 {
+                (0x80 | *rng.pick(&[8u8, 9, 10]), true)
+            } else if in_frag {
+                if rng.chance(1, 2) {
+                    in_frag = false;
+                    (0x80, false)
+                } else {
+                    (0x00, false)
+                }
+            } else if choice < 7 {
+                (0x80 | *rng.pick(&[1u8, 2]), false)
+            } else {
+                in_frag = true;
+                (*rng.pick(&[1u8, 2]), false)
+            };
+            if ctl && pl.len() > 125 {
+                pl.truncate(125);
+            }
+            if first & 15 == 8 && pl.len() >= 2 {
+                pl[0] = 3;
+                pl[1] = 232;
+                if rng.chance(2, 3) {
+                    for b in pl.iter_mut().skip(2) {
+                        *b = 32 + *b % 95;
+                    }
+                }
+            }
+            if rng.chance(1, 12) {
+                first |= 0x10 << rng.below(3); // RSV bits: ignored by the code
+            }
+            let mut m = masked;
+            let mut announced = None;
+            let mut form = if rng.chance(1, 8) { rng.below(3) as u8 } else { 0 };
+            if fi == bad_at {
+                match rng.below(9) {
+                    0 => m = !m,
+                    1 => first = (first & 0xf0) | *rng.pick(&[3u8, 4, 5, 6, 7, 11, 12, 13, 14, 15]),
+                    2 => first = *rng.pick(&[8u8, 9, 10]), // FIN=0 control
+                    3 => {
+                        first = 0x80 | *rng.pick(&[9u8, 10]);
+                        let n = rng.range(126, 140);
+                        pl = rng.bytes(n);
+                    }
+                    4 => first = if in_frag { *rng.pick(&[1u8, 2]) } else { *rng.pick(&[0u8, 0x80]) },
+                    5 => {
+                        announced = Some(max as u64 + 1 + rng.below(5) as u64);
+                    }
+                    6 => {
+                        announced = Some(*rng.pick(&[1u64 << 40, u64::MAX, u64::MAX - 13, 1 << 63]));
+                        form = 2;
+                    }
+                    7 => {
+                        first = 0x88;
+                        let n = rng.range(126, 200);
+                        pl = rng.bytes(n);
+                    }
+                    _ => {
+                        // unfragmented data frame inside a fragmented message (accepted: observation)
+                        first = 0x80 | *rng.pick(&[1u8, 2]);
+                    }
+                }
+            }
+            if pl.len() > max && announced.is_none() && fi != bad_at {
+                pl.truncate(max);
+            }
+            bytes.extend(g_frame(first, m, key, &pl, form, announced));
+        }
+        let al = rng.below(4);
+        let head = format!("stream role={role} max={max} al={al} ");
+        cases.push(format!("{head}{}", hex(&bytes)));
+        // all 2-cuts
+        if bytes.len() <= 90 || thorough {
+            for c in 0..=bytes.len() {
+                cases.push(format!("{head}{}", cut_at(&bytes, &[c])));
+            }
+        } else {
+            for _ in 0..12 {
+                let c = rng.below(bytes.len() + 1);
+                cases.push(format!("{head}{}", cut_at(&bytes, &[c])));
+            }
+        }
+        // 1-byte feeds
+        if bytes.len() <= 400 {
+            let cuts: Vec<usize> = (1..bytes.len()).collect();
+            cases.push(format!("{head}{}", cut_at(&bytes, &cuts)));
+        }
+        // random k-cuts
+        for _ in 0..3 {
+            let k = rng.range(2, 6);
+            let cuts = rand_cuts(&mut rng, bytes.len(), k);
+            cases.push(format!("{head}{}", cut_at(&bytes, &cuts)));
+        }
+    }
+
+    // ---- stream: pure fuzz (random bytes with a plausible first frame)
+    for _ in 0..ctx.budget(300) {
+        let role = if rng.chance(1, 2) { "s" } else { "c" };
+        let n = rng.range(0, 40);
+        let mut b = rng.bytes(n);
+        if n >= 2 && rng.chance(3, 4) {
+            b[0] = (b[0] & 0xf0) | *rng.pick(&[0u8, 1, 2, 8, 9, 10]);
+            b[1] = (b[1] & 0x7f) | if role == "s" { 0x80 } else { 0 };
+            if rng.chance(1, 2) {
+                b[1] = (b[1] & 0x80) | (b[1] & 0x1f);
+            }
+        }
+        let k = rng.below(4);
+        let cuts = rand_cuts(&mut rng, n, k);
+        cases.push(format!("stream role={role} max={} al={} {}", rng.pick(&[0usize, 10, 125, 65536]), rng.below(4), cut_at(&b, &cuts)));
+    }
+
+    // ---- enc: every message kind x boundary lengths x both roles
+    let kinds = ["T", "B", "PI", "PO", "CT", "CB"];
+    for role in ["s", "c"] {
+        for kind in kinds {
+            for &len in LENS {
+                let al = rng.below(4);
+                let k = hex0(&rng.bytes(4));
+                let p = if len == 0 { "-".to_owned() } else { format!("A{len}.{}", rng.below(95)) };
+                for max in [65536usize, len, len.saturating_sub(1)] {
+                    cases.push(format!("enc role={role} max={max} al={al} k={k} {kind}:{p}"));
+                }
+            }
+        }
+        for &len in BIG_LENS {
+            for kind in ["T", "B", "CB"] {
+                let al = rng.below(4);
+                let k = hex0(&rng.bytes(4));
+                let p = if kind == "T" { format!("A{len}.{}", rng.below(95)) } else { format!("R{len}.{}", rng.below(256)) };
+                cases.push(format!("enc role={role} max={} al={al} k={k} {kind}:{p}", 1 << 20));
+                cases.push(format!("enc role={role} max={len} al={al} k={k} {kind}:{p}"));
+                cases.push(format!("enc role={role} max={} al={al} k={k} {kind}:{p}", len - 1));
+            }
+        }
+        // close frames
+        for code in [1000u16, 1001, 1006, 1015, 2000, 0, 65535, 999, 1014] {
+            for dl in [None, Some(0usize), Some(1), Some(5), Some(122), Some(123), Some(124), Some(200)] {
+                let al = rng.below(4);
+                let k = hex0(&rng.bytes(4));
+                let tok = match dl {
+                    None => format!("CLOSE:{code}"),
+                    Some(0) => format!("CLOSE:{code}:-"),
+                    Some(n) => format!("CLOSE:{code}:A{n}.{}", rng.below(95)),
+                };
+                cases.push(format!("enc role={role} max=65536 al={al} k={k} {tok}"));
+            }
+        }
+        cases.push(format!("enc role={role} max=65536 al=0 k=00000000 CLOSE:-"));
+        cases.push(format!("enc role={role} max=65536 al=0 k=a1b2c3d4 CLOSE:1000:e282ac20c3a9f09f9880"));
+    }
+    // ---- enc: random message sequences (continuation bracketing on both sides)
+    let toks = ["T", "B", "PI", "PO", "CT", "CB", "CC", "CL", "CC", "CL", "NOP", "CLOSE"];
+    for _ in 0..ctx.budget(500) {
+        let role = if rng.chance(1, 2) { "s" } else { "c" };
+        let n = rng.range(1, 8);
+        let mut ms = Vec::new();
+        for _ in 0..n {
+            let t = *rng.pick(&toks);
+            let len = if rng.chance(1, 8) { *rng.pick(&[125usize, 126, 127, 130]) } else { rng.below(12) };
+            let p = if len == 0 { "-".to_owned() } else { format!("A{len}.{}", rng.below(95)) };
+            ms.push(match t {
+                "NOP" => "NOP".to_owned(),
+                "CLOSE" => {
+                    if rng.chance(1, 3) {
+                        "CLOSE:-".to_owned()
+                    } else {
+                        format!("CLOSE:{}:{p}", rng.pick(&[1000u16, 1002, 3000, 4999]))
+                    }
+                }
+                t => format!("{t}:{p}"),
+            });
+        }
+        let max = *rng.pick(&[65536usize, 65536, 126, 10]);
+        cases.push(format!("enc role={role} max={max} al={} k={} {}", rng.below(4), hex0(&rng.bytes(4)), ms.join(" ")));
+    }
+
+    // ---- handshake: product of variants
+    let methods = ["GET", "POST", "get"];
+    let upgrades: &[Option<&[u8]>] = &[None, Some(b"websocket"), Some(b"WebSocket"), Some(b"h2c, WEBSOCKET"), Some(b"xwebsocketx"), Some(b"web socket"), Some(b"websocket\xff"), Some(b"websocke")];
+    let conns: &[Option<&[u8]>] = &[None, Some(b"Upgrade"), Some(b"keep-alive, upgrade"), Some(b"notupgradeable"), Some(b"close"), Some(b"upgrad\xe9")];
+    let versions: &[Option<&[u8]>] = &[None, Some(b"13"), Some(b"8"), Some(b"7"), Some(b"12"), Some(b"013"), Some(b"13 "), Some(b"")];
+    let keys: &[Option<&[u8]>] = &[None, Some(b"dGhlIHNhbXBsZSBub25jZQ=="), Some(b""), Some(b"x")];
+    for m in methods {
+        for u in upgrades {
+            for c in conns {
+                for v in versions {
+                    for k in keys {
+                        if !thorough && m != "GET" && (cases.len() % 5 != 0) {
+                            continue;
+                        }
+                        let mut line = format!("hs m={m}");
+                        for (n, val) in [("upgrade", u), ("connection", c), ("sec-websocket-version", v), ("sec-websocket-key", k)] {
+                            if let Some(val) = val {
+                                line.push_str(&format!(" {n}={}", hex(val)));
+                            }
+                        }
+                        cases.push(line);
+                    }
+                }
+            }
+        }
+    }
+    // several values of one header: the first one counts
+    for (a, b) in [("websocket", "h2c"), ("h2c", "websocket")] {
+        cases.push(format!(
+            "hs m=GET upgrade={} upgrade={} connection={} sec-websocket-version=3133 sec-websocket-key={}",
+            hex(a.as_bytes()),
+            hex(b.as_bytes()),
+            hex(b"upgrade"),
+            hex(b"abc")
+        ));
+        cases.push(format!(
+            "hs m=GET upgrade={} connection={} sec-websocket-version={} sec-websocket-version={} sec-websocket-key={} sec-websocket-key={}",
+            hex(b"websocket"),
+            hex(b"upgrade"),
+            hex(if a == "h2c" { b"12" } else { b"13" }),
+            hex(if a == "h2c" { b"13" } else { b"12" }),
+            hex(a.as_bytes()),
+            hex(b.as_bytes())
+        ));
+    }
+    // random keys through the handshake
+    for _ in 0..ctx.budget(100) {
+        let n = rng.range(0, 40);
+        let key: Vec<u8> = (0..n).map(|_| 33 + (rng.next() % 94) as u8).collect();
+        cases.push(format!("hs m=GET upgrade={} connection={} sec-websocket-version=3133 sec-websocket-key={}", hex(b"websocket"), hex(b"Upgrade"), hex(&key)));
+    }
+    // ---- key: every length 0..130 (all SHA-1 padding cases), random bytes
+    for n in 0..=130usize {
+        cases.push(format!("key {}", hex(&rng.bytes(n))));
+    }
+    for _ in 0..ctx.budget(100) {
+        let n = rng.range(0, 300);
+        cases.push(format!("key {}", hex(&rng.bytes(n))));
+    }
+    cases
+}
 
 pub fn prop() -> Prop {
-    Prop {
-        rule: "unimplemented",
-        parallel: false,
-        gen: Box::new(|_| Vec::new()),
-        run: Box::new(|_| CaseResult::ok("unimplemented".to_owned())),
-    }
+    Prop { rule: RULE, parallel: true, gen: Box::new(gen), run: Box::new(run) }
 }
